@@ -1,30 +1,21 @@
 /-
 Driver of C17: case {"cfg":…, "rules":[…], "reqs":[…]} (format: RioModel/Model/RouterJson.lean;
 the "act" member of a rule only matters to the action trace, which is compared on the harness side).
-  m : per request {"t": sorted distinct ids of `routesOfList (Router.trace S q)`,
+  m : per request {"t": sorted ids of `routesOfList (Router.trace S q)` (with repetitions),
                    "m": sorted ids of `Router.matchReq S q`,
                    "fp": priority of the final route of `Router.getTrace`, "gp": of `Router.getRoute`}
       where `q` is the normalised request (`mkReq` = `Request::rebuild_with_config`)
-  s : the same record computed from the flat specification only: both id lists are the `sat`-filter
-      of the rule list, both priorities the maximal priority in it
+No "s": the property's own oracles (set(t) = set(m), fp = gp, last action-trace step = live action)
+are evaluated on the implementation by the harness; the flat specification is compared in C01.
 -/
 import Drivers.Common
 import RioModel.Model.RouterJson
 open Lean Rio.Router
 
-def dedupSorted : List String → List String
-  | a :: b :: rest => if a == b then dedupSorted (b :: rest) else a :: dedupSorted (b :: rest)
-  | l => l
-
 def prioJson (o : Option Route) : Json :=
   match o with
   | some r => toJson r.priority
   | none => Json.null
-
-def maxPrio (rs : List Route) : Json :=
-  match rs with
-  | [] => Json.null
-  | r :: rest => toJson (rest.foldl (fun m x => if x.priority > m then x.priority else m) r.priority)
 
 def handle (j : Json) : Except String Json := do
   let cfg ← J.field j "cfg" J.cfg
@@ -36,13 +27,9 @@ def handle (j : Json) : Except String Json := do
   let qs := reqs.map (mkReq cfg)
   let m := qs.map (fun q =>
     let tr := S.getTrace E q
-    Json.mkObj [("t", J.ids (dedupSorted (sortedIds tr.1))),
+    Json.mkObj [("t", J.ids (sortedIds tr.1)),
                 ("m", J.ids (sortedIds (S.matchReq E q))),
                 ("fp", prioJson tr.2), ("gp", prioJson (S.getRoute E q))])
-  let s := qs.map (fun q =>
-    let f := R.filter (fun r => sat E R r q)
-    Json.mkObj [("t", J.ids (sortedIds f)), ("m", J.ids (sortedIds f)),
-                ("fp", maxPrio f), ("gp", maxPrio f)])
-  return Json.mkObj [("m", Json.arr m.toArray), ("s", Json.arr s.toArray)]
+  return Json.mkObj [("m", Json.arr m.toArray)]
 
 def main : IO Unit := Drv.run handle
